@@ -130,9 +130,15 @@ def _backend_paths(prog, f):
     # isinstance chains
     for n in f.own_nodes():
         if isinstance(n, ast.If):
-            b = _backend_of_test(n.test)
+            test, taken = n.test, n.body
+            while isinstance(test, ast.UnaryOp) and isinstance(test.op, ast.Not):
+                # `if not isinstance(x, np.ndarray): <other backends> else: <numpy>`: the backend's statements are the other branch
+                test, taken = test.operand, (n.orelse if taken is n.body else n.body)
+            b = _backend_of_test(test)
             if b in ('numpy', 'dask'):
-                for st in n.body:
+                for st in taken:
+                    if isinstance(st, ast.If) and taken is n.orelse and _backend_of_test(st.test if not (isinstance(st.test, ast.UnaryOp)) else st.test.operand):
+                        continue        # the rest of the chain is looked at on its own
                     for c in ast.walk(st):
                         if isinstance(c, ast.Call):
                             tgt = prog.resolve_callable(f, f.module, c.func)
